@@ -1,10 +1,10 @@
 package props
 
 import (
-	"sync"
 	"context"
 	"fmt"
 	"math/rand"
+	"sync"
 	"time"
 
 	tpb "github.com/fullstorydev/grpchan/grpchantesting"
